@@ -196,5 +196,17 @@ PROPS['C17'] = {
             'ProductSpace ufuncs and the legacy x.ufuncs namespace, reduce / outer result spaces of DiscretizedSpaceElement (partition algebra)',
     'technique': 'contract-based deductive verification: symbolic execution of the real dispatch code against an abstract ufunc with a ghost call log and identity-tracked abstract arrays',
 }
+PROPS['C19'] = {
+    'level': 'proof',
+    'text': 'Deductive in object-array mode (arrays of small concrete shapes with SYMBOLIC entries; broadcasting / einsum / transposes are NumPy\'s own on dtype=object arrays; cos / sin of a symbolic angle is a pair '
+            '(c, s) with c^2 + s^2 = 1): euler_matrix (2d, ZXZ 3d) and axis_rotation_matrix (unit axis) are orthonormal with det 1, fix the axis, have the documented shape and agree entrywise with single evaluation; '
+            'Flat1d / Flat2d / Circular detectors: surface_deriv is the derivative of surface (symbolic differentiation), the normal is a unit vector orthogonal to it, the measure its length; Parallel2d / 3dAxis / '
+            '3dEuler, FanBeam (flat and curved), ConeBeam (helical pitch): rotation matrices are rotations, det_point_position = det_refpoint + R surface, det_to_src = src_position - det_point_position normalised to '
+            'unit length, source / detector reference points follow the textbook rigid motion, parallel rays are R n(u): constant in u and orthogonal to the rotated axes; broadcast evaluation == entrywise.',
+    'note': 'trusted: pyvc interpreter in object-array mode (NumPy\'s shape semantics reused, not modelled), exact reals, geometry instances built field-wise with their class invariants (unit axes, source-detector '
+            'direction perpendicular to the axis), contract of perpendicular_vector (boolean-mask code), two abstract linear-algebra lemmas proved by z3. Shapes are configurations (scalar, (2,), (2,1)x(1,2)). '
+            'Not under contract: constructors / frommatrix, the factories parallel_beam_geometry / cone_beam_geometry / helical_geometry (detector coverage), geometry slicing, shift functions other than the default',
+    'technique': 'contract-based deductive verification: symbolic execution of the real NumPy code on object arrays with symbolic entries, trigonometric normal form (c^2 + s^2 = 1), polynomial identities by z3 / sympy',
+}
 for _k in PROPS:
     NOT_APPLICABLE.pop(_k, None)
